@@ -14,17 +14,26 @@ def showRedact : Except Err JVal → String
   | .error (.panic s) => "panic:" ++ s
 
 /-- Nested duplicate keys inside a value that is passed through verbatim make the harness's
-    CanonicalJSON order unspecified (C01): such inputs are skipped. -/
-def nestedDupFree (kvs : List (Bytes × JVal)) : Bool :=
-  kvs.all (fun kv =>
-    if matchesField kv.1 b!"content" then
-      match kv.2 with
-      | .obj m => m.all (fun x => x.2.noDupKeys)
-      | v => v.noDupKeys
-    else kv.2.noDupKeys)
+    CanonicalJSON order unspecified (C01): such inputs are skipped.  Only the members redaction reads
+    matter — the LAST member under each exact name of a keep-struct field; everything else (case
+    variants, earlier duplicates, unlisted keys) is dropped unread. -/
+def nestedDupFree (ver : Bytes) (kvs : List (Bytes × JVal)) : Bool :=
+  let names : List Bytes := match algoOf ver with
+    | some a => a.fields.map (·.name)
+    | none => kvs.map (·.1)
+  names.all (fun n =>
+    match lookupExact kvs n with
+    | none => true
+    | some v =>
+      if n == b!"content" then
+        match v with
+        | .obj m => m.all (fun x => x.2.noDupKeys)
+        | w => w.noDupKeys
+      else v.noDupKeys)
 
 /-- The specification stream: what C05 demands for this event, or why the event is outside
-    the property's quantifier. -/
+    the property's quantifier.  Keys are compared as exact strings: a case variant of a protected key
+    (`Event_id`, `Sender`, `ſender`) is an unlisted key like any other and must be dropped. -/
 def specRedact (ver : String) (j : JVal) : String :=
   match RedactSpec.specFor ver with
   | none => "unspecified:unknown version"
@@ -32,8 +41,6 @@ def specRedact (ver : String) (j : JVal) : String :=
     match j with
     | .obj kvs =>
       if !noDupIn (kvs.map (·.1)) then "unspecified:duplicate top-level key"
-      else if kvs.any (fun kv => a.top.any (fun t => foldBytes (RedactSpec.sb t) == foldBytes kv.1 && RedactSpec.sb t != kv.1)) then
-        "unspecified:case variant of a protected key"
       else match lookupExact kvs b!"type", lookupExact kvs b!"content" with
         | some (.str ty), some (.obj m) =>
           if !utf8Valid ty then "unspecified:type not UTF-8"
@@ -74,7 +81,7 @@ def handle (op : String) (args : Array String) : Option String :=
         let j := p.toJVal
         if shapeTag j != tag then some "bad-tag" else
         let dupFree := match j with
-          | .obj kvs => nestedDupFree kvs
+          | .obj kvs => nestedDupFree verb kvs
           | v => v.noDupKeys
         if !dupFree then some "skip:nested duplicate keys (order after sorting unspecified, C01)" else
         some (showRedact (redactJSON verb j) ++ "\t" ++ specRedact (bytesStr verb) j)
